@@ -21,7 +21,8 @@ EOT
 cp "$WT/Cargo.lock" "$DC/" 2>/dev/null
 cp "$V/demo.rs" "$DC/src/main.rs"
 # DEMO_RUSTFLAGS: flags for building the demo only (e.g. --cfg jiff_verif when the demo needs the virtual clock)
-run_demo() { (cd "$DC" && RUSTFLAGS="${DEMO_RUSTFLAGS:-}" cargo run --offline --release -q >"$DC/out.$1" 2>&1; echo $?); }
+# DEMO_RUN: full command for running the demo (default: cargo run --offline --release -q), e.g. a Miri run for a 32-bit target
+run_demo() { (cd "$DC" && RUSTFLAGS="${DEMO_RUSTFLAGS:-}" ${DEMO_RUN:-cargo run --offline --release -q} >"$DC/out.$1" 2>&1; echo $?); }
 base=$(run_demo base)
 git apply "$V/patch.diff" || { echo "RESULT apply-failed"; exit 2; }
 withp=$(run_demo patched)
